@@ -377,4 +377,26 @@ def probe_d34(ctx):
         "-D: a failing test (the debugger is left with 'c') ends the run with exit status %r" % obs.exit)
 
 
-KNOWN_PROBES = {"D34": probe_d34}
+def probe_d44(ctx):
+    """a layer whose setUp calls sys.exit(0), in the main process"""
+    import os
+    import random
+    import shutil
+    rng = random.Random(44)
+    w = worlds.gen_world(rng, n_layers=2, tests_per_layer=(1, 1), kinds=["pass"], p_fault=0.0, p_write=0.0)
+    non_unit = sorted([k for k, l in enumerate(w["layers"]) if l["kind"] != "unit"], key=lambda k: worlds.layer_name(w, k))
+    for k in non_unit:
+        w["layers"][k].update(setUp=True, tearDown=True, bases=[], setUpRaises=[], tearDownFaults=[])
+        w["layers"][k].pop("falsy", None)
+    w["layers"][non_unit[-1]]["dieInSetUp"] = "pyexit0"
+    d = os.path.join(ctx.tmp, "probe_d44")
+    worlds.materialize(w, d)
+    obs = worlds.run_real(w, {"verbose": 1}, d)
+    shutil.rmtree(d, ignore_errors=True)
+    reached = any(e.get("ev") == "die" for e in obs.events)
+    return bool(reached and obs.exit == 0), (
+        "a layer setUp that raises SystemExit(0) in the main process ends the run with exit status %r: the set-up did "
+        "not succeed, its tests did not run, the verdict is 'passed'" % obs.exit)
+
+
+KNOWN_PROBES = {"D34": probe_d34, "D44": probe_d44}
